@@ -377,7 +377,7 @@ func (srv *Server) Shutdown() {
 
 // ReloadDB refreshes the data view
 func (srv *Server) ReloadDB() {
-	srv.db.ReloadChan <- *dnsserver.NewPartialReloadSignal()
+	srv.db.SignalReload(*dnsserver.NewPartialReloadSignal())
 }
 
 // ValidateDbKey checks whether record of certain key is in db
